@@ -84,4 +84,12 @@ theorem C13_source_wrapper (sk : Skel) (ps : List Param) (ret : Option (LType ×
       = some (runProg sk goodWrap (.call .newStyle ps ret bindOk noTc body e) st) :=
   source_runProg_call ..
 
+/-- **who is blamed, as written today**: the `for keep_name … else` loop of `_get_problem_arg`, translated from the current
+    source on this run, computes `problemArg` of the model for every parameter list and every thread state — so
+    `C13_blame` ("the first parameter violating its annotation given the earlier ones, no binding changed") is a
+    statement about the code the source contains. (Building the one-parameter checker is a primitive of the translation.) -/
+theorem C13_source_blame (sk : Skel) (ps : List Param) (st : TState) :
+    runBlame sk Generated.problemArgBody Generated.problemArgElse ps st = some (problemArg sk ps st) :=
+  source_problem_arg sk ps st
+
 end JV
